@@ -314,8 +314,53 @@ def layer_prefix_rebinding(ctx, n):
                           % (base_src, base, src, out), {'src': src, 'base_src': base_src, 'cfg': {}})
 
 
+def layer_load_chain_options(ctx, n):
+    """Pages (file templates) of one directory that pull in a shared template through load:, created with and
+    without enable_data_attributes, in every order and all kept alive: each page's own option decides how the shared
+    template it loads is read (data-tal-* statements executed and removed / left alone as ordinary attributes)."""
+    import os
+    import shutil
+    import tempfile
+    from chameleon import PageTemplateFile
+    rng = ctx.rng
+    tmp = tempfile.mkdtemp(prefix='c18l_')
+    try:
+        for case in range(n):
+            d = os.path.join(tmp, 'k%d' % case)
+            os.makedirs(d)
+            with open(os.path.join(d, 'shared.pt'), 'w') as f:
+                f.write('<ul><li data-tal-repeat="i (1, 2)" data-tal-content="i" data-x-y="k">d</li></ul>')
+            pages = []
+            for k in range(rng.randint(2, 4)):
+                name = 'page%d.pt' % k
+                with open(os.path.join(d, name), 'w') as f:
+                    f.write('<x tal:define="s load: shared.pt">P%d${structure: s()}</x>' % k)
+                pages.append((name, rng.random() < .5, k))
+            ts = [(name, on, k, PageTemplateFile(os.path.join(d, name), enable_data_attributes=on)) for name, on, k in pages]
+            hist = []
+            for step in range(rng.randint(2, 6)):
+                name, on, k, t = rng.choice(ts)
+                try:
+                    got = t()
+                except Exception as e:
+                    got = 'RAISED %s' % type(e).__name__
+                want = ('<x>P%d<ul><li data-x-y="k">1</li>\n<li data-x-y="k">2</li></ul></x>' if on else
+                        '<x>P%d<ul><li data-tal-repeat="i (1, 2)" data-tal-content="i" data-x-y="k">d</li></ul></x>') % k
+                hist.append('%s(enable_data_attributes=%s)' % (name, on))
+                ctx.mon('load-chain-option-steps')
+                if got != want and got.replace('</li>\n<li', '</li><li') != want.replace('</li>\n<li', '</li><li'):
+                    ctx.violation('option-of-the-loading-page-not-applied-to-the-loaded-template',
+                                  'pages %r, history %r: rendered %r, expected %r' % ([(a, b) for a, b, c in pages], hist, got, want), {'kind': 'loadchain'})
+                    break
+            ctx.case(key=('loadchain', tuple(on for _, on, _ in pages), tuple(hist)), nontrivial=len({on for _, on, _ in pages}) > 1)
+    finally:
+        shutil.rmtree(tmp, ignore_errors=True)
+
+
+
 def run(ctx):
     monitors.install(ctx, tokalg=False)
+    layer_load_chain_options(ctx, 10 if ctx.quick else 150)
     rng = ctx.rng
     n = 250 if ctx.quick else 4000
     for case in range(n):
